@@ -87,7 +87,18 @@ case "${1:-}" in
       C14) VERIF_REPLAY="$(realpath "$2")" overlay_test c14 client TestVerifC14;;
       C02|C07|C08|C13) build_b
          GOMAXPROCS=1 VERIF_EXEC_ONE="$(jq -r .violation.part "$2")|$(jq -c .violation.choices "$2")" exec bin/verifb.test -test.run "^Test$prop\$" -test.timeout 0;;
-      C20) python3 gen_gated.py || exit 3
+      C20) if [ "$(jq -r .violation.part "$2")" = server-shutdown ]; then
+           # one scenario of the server-shutdown part, in a process of its own; exit 1 if it violates again
+           cp /repo/go.sum realnats/go.sum 2>/dev/null
+           printf '{"Replace":{"/repo/server/zz_verif_srvstop_test.go":"%s/overlay/srvstop_test.go.txt"}}' "$VERIF_ROOT" > bin/ov_srvstop.json
+           (cd realnats && go test -c -overlay ../bin/ov_srvstop.json -vet=off -o ../bin/srvstop.test github.com/simpleiot/simpleiot/server) || exit 3
+           out=$(VERIF_SRVSTOP_SCENARIO="$(jq -c .violation.input "$2")" bin/srvstop.test -test.run '^TestVerifServerStopOne$' -test.timeout 400s 2>&1 | grep '^SRVSTOP-RESULT')
+           echo "$out"
+           [ -z "$out" ] && { echo "violation: the instance process ended without finishing the scenario"; exit 1; }
+           echo "$out" | grep -q '"violation"' && exit 1
+           exit 0
+         fi
+         python3 gen_gated.py || exit 3
          (cd h && go1.26.8 test -c -vet=off -overlay ../bin/ov_gate.json -o ../bin/verifb_gated.test ./tb) || exit 3
          GOMAXPROCS=1 VERIF_EXEC_ONE="$(jq -r .violation.part "$2")|$(jq -c .violation.choices "$2")" exec bin/verifb_gated.test -test.run '^TestC20$' -test.timeout 0;;
       C04) build_s; (cd h && go build -o ../bin/c04writer ./cmd/c04writer) || exit 3; exec bin/verifs replay "$2";;
